@@ -509,7 +509,7 @@ class BeautifulSoup(Tag):
             d["builder"] = type(self.builder)
         # Store the contents as a Unicode string.
         d["contents"] = []
-        d["markup"] = self.decode()
+        d["markup"] = self.decode(eventual_encoding=None)
         # The tree is rebuilt from the markup on unpickling; the links
         # from this object into the tree (set when something was
         # inserted at its start, or when it is a copy) must not be
